@@ -1,7 +1,7 @@
 #!/usr/bin/env python3
 """Extract items verbatim from /repo, splice contracts in, write gen/griddle_verus.rs + gen/meta.json.
 
-Every change made to the repository text is one of the rules R1..R17 (DESIGN.md 4.2); each is
+Every change made to the repository text is one of the rules R1..R19 (DESIGN.md 4.2); each is
 rendered with a marker so that tools/identity.py can undo it mechanically:
    /*<+*/ inserted text /*+>*/            (contracts, ghost code, braces around closure bodies)
    /*<~ORIGINAL~*/replacement/*~>*/       (R1, R4, R5, R6, R7, R8, R11, R13, R14, R16, R17)
@@ -536,10 +536,19 @@ class Splicer:
                     # keep whitespace before the body out of the substitution
                     while toks[hi_ - 1].kind == "ws":
                         hi_ -= 1
+                    let_ = ""
+                    if cs.destructure:
+                        # R19: `|PAT| BODY` == `|p| { let PAT = p; BODY }` (closure parameters are irrefutable patterns)
+                        pat_ = rs.text_of(toks, c["params_lo"] + 1, c["params_hi"] - 1).strip()
+                        let_ = " let %s = %s;" % (pat_, cs.destructure)
+                        g.hit("R19")
+                        g.meta["r13_r14"].append({"fn": key, "rule": "R19", "before": "|%s|" % pat_, "after": "|%s| {%s .. }" % (cs.destructure, let_)})
                     if c["block"]:
                         self.sub(c["params_lo"], hi_, text, "R8")
+                        if let_:
+                            self.insert_after(c["body_lo"], let_)
                     else:
-                        self.sub(c["params_lo"], hi_, text + "{", "R8")
+                        self.sub(c["params_lo"], hi_, text + "{" + let_, "R8")
                         self.insert_after(c["body_hi"] - 1, "}")
                     continue
             if ptext in ("| _ |",):
@@ -552,14 +561,31 @@ class Splicer:
         # loops
         lps = self.loops(body_lo + 1, body_hi)
         r14 = "R14" in fs.rules
+        # a `foreach` loop spec whose `.for_each(` call has become an ordinary loop (a behaviour-preserving rewrite)
+        # follows the code: it is attached to that loop, with R14 for a non-range `for`
+        n_fe = 0
+        if "R16" in fs.rules:
+            s__ = [k for k in range(body_lo, body_hi) if toks[k].kind not in ("ws", "comment", "doc")]
+            n_fe = sum(1 for n in range(1, len(s__) - 2) if toks[s__[n]].text == "." and toks[s__[n + 1]].text == "for_each" and toks[s__[n + 2]].text == "(")
+        foreach_as_loop = set()
+        for ls in fs.loops:
+            if ls.kw == "foreach" and ls.ordinal > n_fe and ls.ordinal - n_fe <= len(lps):
+                lps[ls.ordinal - n_fe - 1]["spec"] = ls
+                foreach_as_loop.add(id(ls))
+                r14 = True
         for ls in fs.loops:
             if ls.kw == "foreach":
                 continue
             same = lps if ls.kw == "any" else [l for l in lps if l["kw"] == ls.kw]
             if ls.ordinal > len(same):
-                raise Undecided("loop anchor lost: %s %s#%d" % (key, ls.kw, ls.ordinal))
+                raise Undecided("loop anchor lost: %s %s#%d [demotable fn=%s]" % (key, ls.kw, ls.ordinal, key))
             l = same[ls.ordinal - 1]
             l["spec"] = ls
+        if any("exec_allows_no_decreases_clause" in a_ for a_ in fs.fnattr) and any(l.get("spec") is None for l in lps):
+            # elsewhere Verus itself refuses a loop without `decreases` (=> auto-demotion => exit 2); where that refusal is
+            # switched off, a loop the contract does not know would be checked against the invariant `true` and fail for
+            # lack of an invariant, not for what the code does
+            raise Undecided("a loop without a spliced invariant in %s [demotable fn=%s]" % (key, key))
         for l in lps:
             ls = l.get("spec")
             is_range = l["kw"] == "for" and any(toks[x].text in ("..", "..=") for x in range(l["in_idx"], l["brace"]))
@@ -576,6 +602,81 @@ class Splicer:
                 g.hit("R7")
             if ls is not None:
                 self.insert_before(l["brace"], "\n" + clause_lines(ls.clauses, indent="                    ") + "                ")
+        # R18: in the tail expression of the function, `RECV.map(|P| E)` -> `match RECV { Some(P) => Some(E), None => None }`
+        #      and `RECV.or_else(|| E)` -> `match RECV { Some(__v) => Some(__v), None => E }` for closure LITERALS: libcore's
+        #      definitions of Option::map / Option::or_else with the literal beta-reduced. Tail position only, so that a `?`
+        #      inside the closure body (which left the closure with None, the value of the whole expression) now leaves the
+        #      function with the same value. Nested occurrences in the closure bodies are rewritten the same way.
+        if "R18" in fs.rules:
+            def sig(lo, hi):
+                return [k for k in range(lo, hi) if toks[k].kind not in ("ws", "comment", "doc")]
+
+            def r18(lo, hi):
+                """text of the expression toks[lo:hi) with the rule applied (or None if it does not apply)"""
+                s_ = sig(lo, hi)
+                if not s_:
+                    return None
+                # a block `{ stmts; tail }` with a single tail expression and no statements: rewrite the tail
+                if toks[s_[0]].text == "{" and rs.match_close(toks, s_[0]) == s_[-1]:
+                    inner = r18(s_[0] + 1, s_[-1])
+                    return None if inner is None else "{ " + inner + " }"
+                if toks[s_[-1]].text != ")":
+                    return None
+                # the last call `. name ( args )` at depth 0
+                op = None
+                depth = 0
+                for k in reversed(s_):
+                    t_ = toks[k].text
+                    if toks[k].kind == "punct" and t_ in rs.CLOSE:
+                        depth += 1
+                    elif toks[k].kind == "punct" and t_ in rs.OPEN:
+                        depth -= 1
+                        if depth == 0:
+                            op = k
+                            break
+                if op is None or toks[op].text != "(":
+                    return None
+                i_ = s_.index(op)
+                if i_ < 2 or toks[s_[i_ - 2]].text != "." or toks[s_[i_ - 1]].text not in ("map", "or_else"):
+                    return None
+                meth = toks[s_[i_ - 1]].text
+                dot = s_[i_ - 2]
+                cl_ = [c for c in cls if op < c["params_lo"] and c["body_hi"] <= s_[-1] + 1]
+                cl_ = [c for c in cl_ if not any(o is not c and o["params_lo"] < c["params_lo"] and c["body_hi"] <= o["body_hi"] for o in cl_)]
+                if len(cl_) != 1 or sig(op + 1, cl_[0]["params_lo"]) or sig(cl_[0]["body_hi"], s_[-1]):
+                    return None
+                c_ = cl_[0]
+                recv = r18(lo, dot) or rs.text_of(toks, lo, dot).strip()
+                body = r18(c_["body_lo"], c_["body_hi"]) or rs.text_of(toks, c_["body_lo"], c_["body_hi"]).strip()
+                params = rs.text_of(toks, c_["params_lo"], c_["params_hi"]).strip()
+                if meth == "map":
+                    if not (params.startswith("|") and params.endswith("|")) or params == "||":
+                        return None
+                    return "match %s { Some(%s) => Some(%s), None => None }" % (recv, params[1:-1].strip(), body)
+                if params != "||":
+                    return None
+                return "match %s { Some(__v) => Some(__v), None => %s }" % (recv, body)
+
+            s_all = sig(body_lo + 1, body_hi)
+            # tail expression: after the last `;` at depth 0 of the body block
+            depth, start = 0, body_lo + 1
+            for k in s_all:
+                t_ = toks[k]
+                if t_.kind == "punct" and t_.text in rs.OPEN:
+                    depth += 1
+                elif t_.kind == "punct" and t_.text in rs.CLOSE:
+                    depth -= 1
+                elif t_.text == ";" and depth == 0:
+                    start = k + 1
+            tail = sig(start, body_hi)
+            newt = r18(tail[0], tail[-1] + 1) if tail else None
+            if newt is None:
+                # the rule has nothing to rewrite (the code no longer has that shape): the function is verified as it stands
+                g.meta["skipped_anchors"].append({"fn": key, "kind": "rule", "ordinal": 18, "expected": "map/or_else chain over closure literals in tail position", "found": None})
+            else:
+                before = rs.text_of(toks, tail[0], tail[-1] + 1)
+                self.sub(tail[0], tail[-1] + 1, newt, "R18")
+                g.meta["r13_r14"].append({"fn": key, "rule": "R18", "before": before, "after": newt})
         # R16: `RECV.for_each([move] |PAT| { BODY });`  ->  `let mut __it = RECV; while let Some(PAT) = __it.next() { BODY }`
         #      (libcore's provided Iterator::for_each is fold((), ..), and fold is `while let Some(x) = self.next()`)
         # R17: `RECV.size_hint()` on a generic iterator -> `iter_size_hint(&RECV)` (trusted identity wrapper, result unconstrained)
@@ -600,7 +701,7 @@ class Splicer:
                     inner = [c for c in cls if op < c["params_lo"] and c["body_hi"] <= cl + 1]
                     after_cl = [x for x in s if x > cl]
                     if not inner or not inner[0]["block"] or toks[after_cl[0]].text != ";":
-                        raise Undecided("R16: unsupported for_each shape in %s" % key)
+                        raise Undecided("R16: unsupported for_each shape in %s [demotable fn=%s]" % (key, key))
                     c = inner[0]
                     pat = rs.text_of(toks, c["params_lo"] + 1, c["params_hi"] - 1).strip()
                     ls = [l_ for l_ in fs.loops if l_.kw == "foreach" and l_.ordinal == fe_n]
@@ -611,8 +712,8 @@ class Splicer:
                     self.sub(cl, after_cl[0] + 1, "", "R16")
                     g.meta["r13_r14"].append({"fn": key, "rule": "R16", "before": before.strip() + " .. });", "after": newt.strip() + " .. }"})
             for l_ in fs.loops:
-                if l_.kw == "foreach" and l_.ordinal > fe_n:
-                    raise Undecided("loop anchor lost: %s foreach#%d" % (key, l_.ordinal))
+                if l_.kw == "foreach" and l_.ordinal > fe_n and id(l_) not in foreach_as_loop:
+                    raise Undecided("loop anchor lost: %s foreach#%d [demotable fn=%s]" % (key, l_.ordinal, key))
         # R13
         if "R13" in fs.rules:
             s = [k for k in range(body_lo, body_hi) if toks[k].kind not in ("ws", "comment", "doc")]
